@@ -26,8 +26,7 @@ def main():
     ap.add_argument('--round', default='1', help="'2': the second set of harmless rewrites (wth2 / outh2, stored as <Cxx>-g<N>)")
     a = ap.parse_args()
     base = '/tmp/mut/%s' % a.pid
-    r2 = a.round == '2'
-    wt, outd, tag = (base + '/wth2', base + '/outh2', 'g') if r2 else (base + '/wt', base + '/outh', 'h')
+    wt, outd, tag = {'2': (base + '/wth2', base + '/outh2', 'g'), '3': (base + '/wth3', base + '/outh3', 'k')}.get(a.round, (base + '/wt', base + '/outh', 'h'))
     diff = '%s/h%s.diff' % (outd, a.n)
     equiv, meta_in = '%s/h%s_equiv.py' % (outd, a.n), '%s/h%s.json' % (outd, a.n)
     env = dict(PYTHONPATH=wt, PYTHONHASHSEED='0', MPLBACKEND='Agg')
